@@ -350,7 +350,7 @@ pub const ASSUMPTIONS: &[&str] = &[
 ];
 
 pub fn run(ctx: &mut Ctx) {
-    let per = ctx.t(2_500, 120_000);
+    let per = ctx.t(8_000, 120_000);
     let _ = (bit(true), idx(0, 1));
     for g in [H0, H1, H2, H3, H4, H5, H6, H7, H8, H9, H10] {
         ctx.random(&g, &[], per, 1400);
